@@ -40,6 +40,7 @@ def _opaque(kind):
         info = {}
         if kind in ('dict', 'list', 'tuple'):
             info['truthy'] = obj_nonempty(t)
+            info['param'] = name
         return SOpaque(kind, t, info)
     return mk
 
@@ -638,7 +639,7 @@ class Verifier:
                     return
                 if k.raises is not None:
                     r = check_goal(st, name, False, kind='post', concretise=conc)
-                    r.detail += '; expected raise %s, path returns' % getattr(k.raises, '__name__', k.raises)
+                    r.detail += '; expected raise %s, path returns' % (getattr(k.raises, '__name__', None) or '/'.join(x.__name__ for x in k.raises),)
                     results.append(r)
                     return
                 try:
